@@ -17,7 +17,7 @@ PID = 'C05'
 THEOREMS = ['C05_static_equals_automatic_bitfields', 'C05_field_value', 'C05_or_merge_needs_clear_bits', 'C05_nonvacuous',
             # package initcur (Properties_C05_initcur.v): parse.c's initializer functions = C11 6.7.9 for every valid (type, initializer)
             'C05_initcur_model_is_6_7_9', 'C05_initcur_complete_types', 'C05_initcur_tree_is_replay', 'C05_initcur_braced_override_refuted', 'C05_initcur_union_switch_refuted',
-            'C05_initcur_nested_range_refuted', 'C05_initcur_string_elision_refuted', 'C05_initcur_nonvacuous', 'C05_initcur_nonvacuous_strings', 'C05_initcur_nonvacuous_range']
+            'C05_initcur_nested_range_example', 'C05_initcur_string_elision_example', 'C05_initcur_string_override_example', 'C05_initcur_nonvacuous', 'C05_initcur_nonvacuous_strings', 'C05_initcur_nonvacuous_range']
 MODELRUN = os.path.join(VERIF, 'ocaml/modelrun')
 
 SCALARS = ['char', 'signed char', 'unsigned char', 'short', 'int', 'unsigned', 'long', 'unsigned long', '_Bool', 'float', 'double', 'long double', 'char *', 'int *']
